@@ -40,15 +40,15 @@ def leaf_roles(prog):
     return out
 
 
-def ib(prog, key, extra_stop=(), allow=()):
+def ib(prog, key, extra_stop=(), allow=(), max_callee_blocks=None):
     """Inlined body of `key`: every local callee that is not a leaf role (or in extra_stop) is spliced in.  Cached."""
     cache = prog.__dict__.setdefault("_ib_cache", {})
-    ck = (key, tuple(sorted(extra_stop)), tuple(sorted(allow)))
+    ck = (key, tuple(sorted(extra_stop)), tuple(sorted(allow)), max_callee_blocks)
     if ck not in cache:
         leaf = leaf_roles(prog)
         es = set(extra_stop)
         al = set(allow)
-        cache[ck] = inlined_body(prog, key, stop=lambda g: (g in leaf and g not in al) or g in es)
+        cache[ck] = inlined_body(prog, key, stop=lambda g: (g in leaf and g not in al) or g in es, max_callee_blocks=max_callee_blocks)
     return cache[ck]
 
 
@@ -56,29 +56,33 @@ def has_loops(prog, key):
     return bool(prog.body(key).loops())
 
 
-def loopy_fns(prog, root=None):
-    """Non-leaf local functions that contain a loop themselves or through a non-leaf callee other than `root`
-    (such a helper cannot be path-enumerated when spliced in, so it stays a call; calls back into `root` stay calls anyway)."""
+def loopy_fns(prog, root=None, transitive=True):
+    """Non-leaf local functions that contain a loop themselves — or (transitive) through a non-leaf callee other than `root`.
+    A loop-carrying helper cannot be path-enumerated when spliced in, so it stays a call; calls back into `root` stay calls anyway."""
     cache = prog.__dict__.setdefault("_loopy", {})
-    if root in cache:
-        return cache[root]
+    ck = (root, transitive)
+    if ck in cache:
+        return cache[ck]
     leaf = leaf_roles(prog)
     direct = {k for k, f in prog.fns.items() if f.get("kind") != "Closure" and prog.body(k).loops()}
-    cg = prog.callgraph()
     out = set(direct)
-    changed = True
-    while changed:
-        changed = False
-        for k in prog.fns:
-            if k in out or k == root or prog.fns[k].get("kind") == "Closure":
-                continue
-            if any((c in out) and (c not in leaf) and c != root for c in cg[k]):
-                out.add(k)
-                changed = True
-    cache[root] = out
+    if transitive:
+        cg = prog.callgraph()
+        changed = True
+        while changed:
+            changed = False
+            for k in prog.fns:
+                if k in out or k == root or prog.fns[k].get("kind") == "Closure":
+                    continue
+                if any((c in out) and (c not in leaf) and c != root for c in cg[k]):
+                    out.add(k)
+                    changed = True
+    cache[ck] = out
     return out
 
 
-def ib_paths(prog, key, extra_stop=()):
-    """Inlined body suitable for path enumeration: loop-containing helpers stay calls."""
-    return ib(prog, key, extra_stop=set(extra_stop) | (loopy_fns(prog, key) - {key}))
+def ib_paths(prog, key, extra_stop=(), transitive=False):
+    """Inlined body suitable for path enumeration: helpers that carry a loop themselves stay calls (their loop-free callers are spliced
+    in and simply contain that call).  transitive=True also keeps every helper that reaches a loop as one opaque call (the key-value
+    processor's summary wants the reph routine as a single effect)."""
+    return ib(prog, key, extra_stop=set(extra_stop) | (loopy_fns(prog, key, transitive) - {key}), max_callee_blocks=None if transitive else 80)
